@@ -237,7 +237,9 @@ func flagFor(phis []*ssa.Phi, hdr *ssa.BasicBlock, pred *ssa.BasicBlock) *ssa.Ph
 
 func c09Jump(c *Ctx, e *e4Engine, f *ssa.Function, hdr *ssa.BasicBlock, loop map[*ssa.BasicBlock]bool, cur *ssa.Phi, val ssa.Value, pred *ssa.BasicBlock, phis []*ssa.Phi) {
 	r := c.R
-	key := func(s string) string { return shortName(f) + ": cursor jump (" + cur.Comment + " = " + shortDesc(val, 2) + "): " + s }
+	key := func(s string) string {
+		return shortName(f) + ": cursor jump (" + cur.Comment + " = " + shortDesc(val, 2) + "): " + s
+	}
 	pos := c.P.ipos(pred.Instrs[len(pred.Instrs)-1])
 	flag := flagFor(phis, hdr, pred)
 	if flag == nil {
